@@ -25,6 +25,10 @@ type simParams struct {
 	// Partition: r1 receives nothing during phase 1 (every message to it is lost) while the others go
 	// on (with quiet periods and snapshots) - it has to catch up across snapshots in phase 2
 	Partition bool `json:"partition"`
+	// Concurrent: phase 1 consists of rounds in which every replica edits once, concurrently; each of
+	// the resulting head updates is delivered with probability 0.4, everything else (also what the
+	// deliveries emit) is lost - multi-head sets that only anti-entropy can repair
+	Concurrent bool `json:"concurrent"`
 }
 
 // one line of the recorded trace (spec/treesync/TreeSyncTrace.tla)
@@ -183,6 +187,38 @@ func runSim(pool *slotPool, p simParams, rep *vfutil.Report, tw *vfutil.TraceWri
 	}
 	if snapPct == 0 {
 		snapPct = 20
+	}
+	if p.Concurrent {
+		for round := 0; round < 2+rng.Intn(3); round++ {
+			for _, r := range holders() {
+				snap := rng.Intn(100) < snapPct/2
+				sr := w.addContent(r, snap)
+				if sr.Err != nil {
+					panic(fmt.Sprintf("AddContent: %v", sr.Err))
+				}
+				ci := w.universe[sr.NewId]
+				emit(tev{Ev: "AddContent", R: r.name, Snap: snap, Id: sr.NewId, Ch: &ci, Emit: sr.Emitted, St: stateOf(r)})
+			}
+			initial := append([]*msg{}, w.net...)
+			for _, m := range initial {
+				w.removeFromNet(m)
+				if rng.Intn(100) < 40 {
+					sr := w.deliver(m)
+					logDeliver(m, sr)
+				} else {
+					emit(tev{Ev: "Drop", M: m})
+				}
+				if _, ok := checkAll(w, rep, "concurrent round: "+m.key(), replay); !ok {
+					return false
+				}
+				rep.AddSteps(1)
+			}
+			for _, m := range append([]*msg{}, w.net...) {
+				w.removeFromNet(m)
+				emit(tev{Ev: "Drop", M: m})
+			}
+		}
+		edits = 0
 	}
 	for edits > 0 || (len(w.net) > 0 && rng.Intn(4) != 0) {
 		steps++
@@ -343,7 +379,10 @@ func TestRecord(t *testing.T) {
 		if run%5 == 4 && !p.Lossless {
 			p.Partition, p.SnapPct, p.Absent = true, 35, false
 		}
-		if run%3 == 0 {
+		if run%5 == 3 && !p.Lossless {
+			p.Concurrent, p.Absent, p.Big, p.N = true, false, false, min(3+rng.Intn(2), maxN)
+		}
+		if run%3 == 0 && !p.Concurrent {
 			// heavy loss, many snapshots, few replicas: replicas fall behind snapshots
 			p.N, p.DropPct, p.SnapPct = 3, 30, 40
 		}
@@ -363,7 +402,7 @@ func TestRecord(t *testing.T) {
 		if !ok {
 			bad++
 		}
-		rep.Case(fmt.Sprintf("n%d-e%d-l%v-b%v-a%v-p%v-d%d", p.N, p.Edits, p.Lossless, p.Big, p.Absent, p.Partition, p.DropPct))
+		rep.Case(fmt.Sprintf("n%d-e%d-l%v-b%v-a%v-p%v-d%d", p.N, p.Edits, p.Lossless, p.Big, p.Absent, p.Partition || p.Concurrent, p.DropPct))
 		rep.AddReplayed(1)
 		if run < 2 {
 			rep.Sample(map[string]any{"sim": p, "ok": ok})
